@@ -145,3 +145,29 @@ pub fn fragment_client(builder: ClientBuilder) -> (Client, mpsc::UnboundedReceiv
 	let c = builder.build_with_tokio(MockSender(tx_out), FragmentReceiver(rx_in));
 	(c, rx_out, tx_in)
 }
+
+/// An auto-answering peer without delay: every call / batch entry is answered with `echo-<its first param>` under its own id.
+pub struct EchoSender(pub mpsc::UnboundedSender<Result<String, String>>);
+impl TransportSenderT for EchoSender {
+	type Error = MockErr;
+	fn send(&mut self, msg: String) -> impl Future<Output = Result<(), Self::Error>> + Send {
+		let tx = self.0.clone();
+		async move {
+			let v: serde_json::Value = serde_json::from_str(&msg).unwrap_or(serde_json::Value::Null);
+			let answer = |req: &serde_json::Value| serde_json::json!({"jsonrpc":"2.0","id":req["id"],"result":format!("echo-{}", req["params"][0])});
+			let reply = match &v {
+				serde_json::Value::Array(reqs) => serde_json::Value::Array(reqs.iter().map(answer).collect()),
+				obj if obj.get("id").is_some() => answer(obj),
+				_ => serde_json::Value::Null,
+			};
+			if !reply.is_null() {
+				let _ = tx.send(Ok(reply.to_string()));
+			}
+			Ok(())
+		}
+	}
+}
+pub fn echo_client(builder: ClientBuilder) -> Client {
+	let (tx_in, rx_in) = mpsc::unbounded_channel();
+	builder.build_with_tokio(EchoSender(tx_in), MockReceiver(rx_in))
+}
